@@ -392,4 +392,24 @@ example : instOK inst0 [(pT, intT), (pX, wild 1 (some intT))] (some [intT, wild 
 example : instOK { inst0 with dis := ⟨true, false⟩ } [(pT, intT), (pX, wild 1 (some intT))]
     (some [intT, wild 1 (some intT)]) = false := by decide
 
+/-! ### the shape on which the unchanged code violates `compute_within_bounds`
+
+`class Dir<P : Number, Q : P, R>` instantiated (no requests, empty variance-choice map, all
+switches off) as `Dir<out Int, out Int, String>`: `Q`'s bound mentions `P`, so `P` must stay
+invariant.  The real `_compute_type_variable_assignments` produces this result (an inner loop
+variable shadows the parameter index; recorded finding, `harness/check_C08.py` replays the same
+declaration on the real code in `stream_witness`). -/
+
+private def dP := tparam "P" 0 (some numT)
+private def dQ := tparam "Q" 0 (some dP)
+private def dR := tparam "R" 0 none
+private def dirIn : InstIn := ⟨[dP, dQ, dR], [], some [], ⟨false, false⟩, anyT⟩
+
+theorem compute_within_bounds_counterexample_shape :
+    instOK dirIn [(dP, wild 1 (some intT)), (dQ, wild 1 (some intT)), (dR, strT)]
+      (some [wild 1 (some intT), wild 1 (some intT), strT]) = false ∧
+    projAllowed dirIn dP [dQ, dR] 1 = false ∧
+    instOK dirIn [(dP, intT), (dQ, intT), (dR, wild 1 (some strT))] (some [intT, intT, wild 1 (some strT)]) = true := by
+  decide
+
 end Heph.Props.C08
